@@ -70,6 +70,7 @@ def render : Out → String
   | .spBusy => "busy"
   | .spJoined id => s!"joined {id}"
   | .nothing => "nothing"
+  | .queueStuck => "QUEUE-STUCK"
   | .evQueued => "queued"
   | .processed b e => withSpec s!"processed {tagsOf b}" s!"processed {tagsOf (curOf b e)}"
   | .flushEmpty => "empty"
@@ -115,6 +116,10 @@ structure DSt where
   gone : List Nat := []
   hold : Bool := false   -- `holdpub`: snapshot files are not written until `relpub`
   rp : RunnerProc.St := {}   -- the standalone source runner process of `r.*` ops
+  hungS : List Nat := []     -- `hang s i` / `hang o i`: members that stop answering RPCs
+  hungO : List Nat := []
+  stuck : Bool := false
+  retainStuck : Bool := false
 
 def DSt.live (d : DSt) (k : Nat) : Bool := d.started.contains k && !d.gone.contains k
 
@@ -188,21 +193,24 @@ def two (d : DSt) (a b : Act) : DSt × String :=
   let (s2, o2) := step s1 b
   ({ d with s := s2 }, render o1 ++ " ; " ++ render o2)
 
+/-- one action through `stepQ` (the job with members that may not answer) -/
+def qstep (d : DSt) (a : Act) : DSt × Out :=
+  let (q', o) := stepQ { s := d.s, hungS := d.hungS, hungO := d.hungO, stuck := d.stuck, retainStuck := d.retainStuck } a
+  ({ d with s := q'.s, hungS := q'.hungS, hungO := q'.hungO, stuck := q'.stuck, retainStuck := q'.retainStuck }, o)
+
 def retainText : Out → String
   | .published n _ l => if l.isEmpty then "" else s!" retain={n}@{ids l}"
   | _ => ""
 
 /-- publish everything being written, oldest first; returns the retained-ids notifications that go out -/
-def publishAll (s : St) : St × String :=
-  s.store.writing.foldl (fun (acc : St × String) n =>
-    let (s', o) := step acc.1 (.publish n)
-    (s', acc.2 ++ retainText o)) (s, "")
+def publishAll (d : DSt) : DSt × String :=
+  d.s.store.writing.foldl (fun (acc : DSt × String) n =>
+    let (d', o) := qstep acc.1 (.publish n)
+    (d', acc.2 ++ retainText o)) (d, "")
 
 /-- unless the harness holds the storage, the file of a completed snapshot is written at once -/
 def settlePub (d : DSt) : DSt × String :=
-  if d.hold then (d, "") else
-    let (s', t) := publishAll d.s
-    ({ d with s := s' }, t)
+  if d.hold then (d, "") else publishAll d
 
 def renderR : RunnerProc.Out → String
   | .deployed none => "deployed"
@@ -232,7 +240,9 @@ def stepRunner (d : DSt) (a : RunnerProc.Act) : DSt × String :=
 
 def stepLine0 (d : DSt) (ws : List String) : DSt × String :=
   match ws with
-  | ["st"] => (d, showState d.s)
+  | ["st"] => (d, if d.stuck then "QUEUE-STUCK" else showState d.s)
+  | ["hang", "s", i] => ({ d with hungS := natOr i :: d.hungS }, "ok")
+  | ["hang", "o", i] => ({ d with hungO := natOr i :: d.hungO }, "ok")
   | ["r.deploy"] => stepRunner d .deploy
   | ["r.hold"] => stepRunner d .hold
   | ["r.start", id] => stepRunner d (.start (natOr id))
@@ -240,9 +250,9 @@ def stepLine0 (d : DSt) (ws : List String) : DSt × String :=
   | ["holdpub"] => ({ d with hold := true }, "ok")
   | ["relpub"] =>
       let ns := d.s.store.writing
-      let (s', t) := publishAll d.s
-      ({ d with hold := false, s := s' },
-       if ns.isEmpty then "nothing" else s!"published {ids ns} cur={optNat s'.store.current}" ++ t)
+      let (d', t) := publishAll d
+      ({ d' with hold := false },
+       if ns.isEmpty then "nothing" else s!"published {ids ns} cur={optNat d'.s.store.current}" ++ t)
   | ["raceprobe", _] => (d, "ok")  -- concurrency probe for the -race build of the harness; ends its case
   | ["hbxn", _, _] => (d, "ok")  -- the same statement at nanosecond resolution around the deadline
   | ["hbx", _, _] => (d, "ok")   -- spec: C15.heartbeat_expiry_exact, evaluated on the real LivenessTracker
@@ -271,7 +281,13 @@ def stepLine0 (d : DSt) (ws : List String) : DSt × String :=
       let (s', o) := step d.s .tickB
       let x := render o
       ({ d with s := s' }, if d57Situation d.s && x != "notick" then withSpecId x "stopped" "D57" else x)
-    | some a => let (s', o) := step d.s a; ({ d with s := s' }, render o)
+    | some a =>
+      -- Finding D71, tagged only in its situation: the queue is blocked behind an AssignSplits call to a runner that does
+      -- not answer (the property: the job still processes membership changes; what that would print is not computed,
+      -- the spec side only says that it is not stuck)
+      let (d', o) := qstep d a
+      let x := render o
+      (d', if x == "QUEUE-STUCK" then withSpecId x "not-stuck" "D71" else x)
     | none => (d, "bad-op")
 
 def stepLine (d : DSt) (ws : List String) : DSt × String :=
